@@ -464,6 +464,7 @@ type FuncContract struct {
 	Trusted  bool // contract assumed, body not verified
 	Pure     bool // result is a function of arguments (and read heap)
 	Safe     bool // prove absence of run-time panics too
+	DetProps      map[string]bool // the properties under which the order discipline of a deterministic function is checked
 	Deterministic bool // C10: must not return, store into its results, or encode an unordered collection
 	Concurrent bool // this function literal runs concurrently with its siblings: appends to captured variables are unordered
 	BagResults []int // results that are declared unordered collections (callers must sort them)
@@ -727,7 +728,17 @@ func (cs *ContractSet) ParseContractFile(path, pkgPath string) error {
 			case "noframe":
 				cur.NoFrame = true
 			case "deterministic":
+				// "deterministic" (order discipline under C10) or "deterministic C01 C10" (under the listed properties)
 				cur.Deterministic = true
+				if cur.DetProps == nil {
+					cur.DetProps = map[string]bool{}
+				}
+				if len(fields) == 1 {
+					cur.DetProps["C10"] = true
+				}
+				for _, f := range fields[1:] {
+					cur.DetProps[f] = true
+				}
 			case "concurrent":
 				cur.Concurrent = true
 			case "bag":
@@ -961,8 +972,8 @@ func (cs *ContractSet) finalize() {
 		if fc.Decreases != nil {
 			all = append(all, fc.Decreases)
 		}
-		if fc.Deterministic {
-			fc.props["C10"] = true
+		for p := range fc.DetProps {
+			fc.props[p] = true
 		}
 		for _, c := range all {
 			c.owner = fc
